@@ -1349,6 +1349,12 @@ func (j *jsonhRunner) soup() string {
 // str: a key / message / string value / group name
 func (j *jsonhRunner) str() string {
 	r := j.rng
+	if r.Intn(4000) == 0 {
+		// a value that pushes the pooled line buffer past the 16 KiB pool limit: the NEXT records
+		// then run on whatever freeBuffer put back into the pool
+		j.s.Dist["str:huge"]++
+		return strings.Repeat(Pick(r, jsonhWords)+" ", 1+(17000+r.Intn(30000))/8)
+	}
 	switch c := r.Intn(100); {
 	case c < 38:
 		j.s.Dist["str:word"]++
